@@ -144,9 +144,9 @@ def _harness(c, binp, behs, name, hcfg, procs=12, timeout=1500):
     return c.run_harness_parallel(binp, ['-cfg', json.dumps(hc)], behs, name=name, procs=procs, timeout=timeout, env=HENV)
 
 
-THOROUGH_MC = [(dict(keys=3, writes=2, batch=2, drop=True, combined=False, scan=True), 3),
+THOROUGH_MC = [(dict(keys=3, writes=2, batch=2, drop=True, combined=True, scan=True), 4),
                (dict(keys=2, writes=3, batch=2, drop=False, combined=True), 4),
-               (dict(keys=3, writes=3, batch=1, drop=True, combined=True, scan=True), 3),
+               (dict(keys=3, writes=3, batch=1, drop=True, combined=False), 3),
                (dict(keys=3, writes=2, batch=3, drop=False, combined=True), 3),
                (dict(keys=2, writes=4, batch=1, drop=False, combined=True), 2)]
 
@@ -195,7 +195,7 @@ def _run(c, binp):
     else:
         mcs = THOROUGH_MC
         gcs = [(dict(keys=3, writes=2, batch=2), 2), (dict(keys=2, writes=3, batch=1), 2)]
-        nsim, simjobs = 1200, 4
+        nsim, simjobs = 800, 4
     skeys = 4
 
     def job(j):
@@ -203,7 +203,7 @@ def _run(c, binp):
         n = jobs.index(j)       # distinct scratch directories
         if kind == 'mc':
             return tlc.run('Sidx.tla', 'mc.cfg', tag='sidx-mc%d' % n, files={'mc.cfg': cfg(**k)}, coverage=(not quick and k is mcs[0][0]),
-                           timeout=300 if quick else 2400, workers=wk)
+                           timeout=1200 if quick else 3600, workers=wk)
         if kind == 'cex':      # the scan WITHOUT bounds between scan batches: TLC must find an out-of-order answer
             return tlc.run('Sidx.tla', 'x.cfg', tag='sidx-x%d' % n, files={'x.cfg': cfg(bounded=False, **k)}, timeout=600, workers=wk)
         if kind == 'graph':
@@ -292,6 +292,11 @@ def _run(c, binp):
         hc = {'keys': k, 'matrix': matrix}
         fold(_harness(c, binp, [allb[i] for i in idx], 'k%d' % k, hc), idx, hc)
     c.log('replayed %d behaviours / %d steps, %d queries through both entry points' % (total_b, total_s, stats.get('queries', 0)))
+    for op in ('write', 'flush', 'merge', 'query'):
+        if not stats.get('op_' + op):
+            c.inconclusive('vacuous run: no %s step was replayed' % op)
+    if not any(s['last'].get('op') == 'merge' and s['last'].get('drop') for b in allb for s in b[1:]):
+        c.inconclusive('vacuous run: no merge with a rejecting keep predicate was replayed')
 
     phase('replay_cpu_s')
     # ---- 3. thorough: the same behaviours with entry counts that cross the block limits ------------------
